@@ -423,6 +423,85 @@ def c06h(ctx):
                  "PREVIOUS node info is compared with the observation and the caller is verified clean on a ring that an input edit has just created")
 
 
+def c06j(ctx):
+    """D15.  A caller that is already marked as a member of a cycle gets CyclicError for every read.  What such a read would
+    observe (for a non-closing member: the closer's published cycle default) is not what the member's result depends on:
+    recording it as an ordinary observation lets a later repair compare fingerprints and verify the member clean after it
+    left the cycle.  The fast path records an observation only for a caller that is not in an SCC."""
+    prog = ctx.prog
+    o = ctx.ob("C06.j", "fast_path/no-observation-for-a-caller-on-a-cycle", "K4", "Snapshot::fast_path records the callee's fingerprints only under QueryComputing::is_in_scc() == false")
+    b = ctx.touch(prog.coroutine_of("Snapshot::fast_path"))
+    obs = b.calls_to(r"observe_callee_fingerprint$")
+    o.sites = len(obs)
+    if len(obs) != 1:
+        ctx.fail(o, Site(b, 0, 0), "anchor missing: observe_callee_fingerprint in Snapshot::fast_path (found %d)" % len(obs))
+        return
+    g = df.guarded_by(b, obs[0].bb, lambda c: c.kind == "call" and c.callee.endswith("QueryComputing::is_in_scc"))
+    pol = {((v != 0) != c.negated) for sb, v, tb, c in g if v != "otherwise"} | {(not c.negated) for sb, v, tb, c in g if v == "otherwise"}
+    if pol != {False}:
+        ctx.fail(o, obs[0], "Snapshot::fast_path records the observation of a read under is_in_scc() == %s (must be exactly `false`): a ring member that reads the ring's closer after "
+                 "the closer published its cycle default stores that default as an ordinary observation, is later verified clean against it and keeps its own cycle default after "
+                 "the cycle is gone" % (sorted(pol) or "no test"))
+
+
+def c06k(ctx):
+    """K5.  should_recompute_query runs the repair phase with the node's QueryComputing; when it decides to re-execute,
+    clear_dependencies() throws away what the repair phase recorded.  The SCC mark is part of that state: if a callee's
+    repair found a cycle (D9), the mark is set, and an executor started with the mark already set gets CyclicError from its
+    FIRST read, whatever it reads - the node is stored with its cycle default and that one edge only; the edge into the
+    cycle and every other read are lost, so nothing dirties it when the cycle disappears.  Necessary in the shape of the
+    code: clear_dependencies resets the mark as well (or the re-execution gets a fresh QueryComputing).  NOT sufficient: the
+    naive reset alone lets the cyclic panic escape in another history (the demonstration of seeded change C06-3), see
+    DESIGN 6b."""
+    prog = ctx.prog
+    o = ctx.ob("C06.k", "repair_query/scc-mark-of-the-repair-phase-does-not-reach-the-executor", "K3", "QueryComputing::clear_dependencies also resets is_in_scc (every per-attempt field)")
+    b = ctx.touch(prog.body("QueryComputing::clear_dependencies"))
+    touched = set()
+    for s_ in b.calls():
+        if s_.node["args"]:
+            ap = [e for e in df.access_path(b, s_.node["args"][0]) if not e.startswith("<")]
+            touched |= set(ap)
+    o.sites = len(touched)
+    rq = ctx.touch(prog.coroutine_of("Snapshot::repair_query"))
+    if not rq.calls_to(r"QueryComputing::clear_dependencies$"):
+        ctx.fail(o, Site(rq, 0, 0), "anchor missing: repair_query no longer calls clear_dependencies before re-executing")
+        return
+    if "is_in_scc" not in touched:
+        ctx.fail(o, Site(b, 0, 0), "QueryComputing::clear_dependencies resets %s but not is_in_scc: a cycle found while the node was still being repaired leaves the mark set, the "
+                 "re-execution unwinds at its first read and the node is stored with that single dependency - it keeps its cycle default after the cycle is gone" % sorted(touched - {"callee_info"}))
+
+
+def c06l(ctx):
+    """The wait-for graph of cycle detection is keyed by who waits for whom.  When a node repairs one of its callees it
+    introduces itself (QueryCaller) under ITS OWN id, paired with its own QueryComputing: exit_scc asks "can the in-flight
+    callee reach the caller?".  Introducing itself under the callee's id turns the question into "can the callee reach
+    itself?" - true for every ring the callee lies on, also one that another request closed and that is still unwinding:
+    an outside reader is then told it is cyclic.  In check_callee the id handed to QueryCaller is the SOURCE of the edge
+    whose dirtiness it looks up, never its target."""
+    prog = ctx.prog
+    o = ctx.ob("C06.l", "check_callee/repairing-caller-introduces-itself-under-its-own-id", "K5", "the QueryCaller built by check_callee carries the id that is the source of is_edge_dirty(source, callee)")
+    b = ctx.touch(prog.coroutine_of("Snapshot::check_callee"))
+    qc = b.calls_to(r"QueryCaller::new_with_pedantic_repair$")
+    ed = b.calls_to(r"is_edge_dirty$")
+    o.sites = len(qc) + len(ed)
+    if len(qc) != 1 or len(ed) != 1:
+        ctx.fail(o, Site(b, 0, 0), "anchor missing: QueryCaller::new_with_pedantic_repair / is_edge_dirty in check_callee (%d / %d)" % (len(qc), len(ed)))
+        return
+    key = lambda op: {(x.kind, str(x.info)) for x in df.origins_of_operand(b, op)}
+    me, src, tgt = key(qc[0].node["args"][0]), key(ed[0].node["args"][1]), key(ed[0].node["args"][2])
+    if me != src or me == tgt:
+        ctx.fail(o, qc[0], "check_callee introduces the repairing node to its callee under %s id: cycle detection then asks whether the callee can reach ITSELF, and an outside reader of a "
+                 "ring that is still unwinding is answered CyclicError and stored with its cycle default" % ("the callee's" if me == tgt else "another"))
+    # the executing node does the same with its own snapshot's id
+    e = [x for x in prog.find(r"^Snapshot::execute_query::\{closure#0\}(::\{closure#0\})?$") if x.calls_to(r"QueryCaller::new_with_pedantic_repair$")]
+    for x in e:
+        ctx.touch(x)
+        for s_ in x.calls_to(r"QueryCaller::new_with_pedantic_repair$"):
+            o.sites += 1
+            if not any(y.kind == "call" and (y.callee() or "").endswith("Snapshot::<C, Q>::query_id") for y in df.origins_of_operand(x, s_.node["args"][0])):
+                ctx.fail(o, s_, "execute_query introduces the executing node under an id that is not its own snapshot's query_id()")
+
+
 def run(ctx):
     # "when an input change removes a cycle the results follow": the member that closed the ring keeps its callee in the edge
     # ORDER but has no observation - it is dirtied through the backward edge wired from that order (C01.c's arm-symmetry /
@@ -433,6 +512,9 @@ def run(ctx):
     ctx.run_clause("C06.i", C01.c01c_roles)
     ctx.alias = {}
     ctx.run_clause("C06.h", c06h)
+    ctx.run_clause("C06.j", c06j)
+    ctx.run_clause("C06.l", c06l)
+    ctx.run_clause("C06.k", c06k)
     ctx.run_clause("C06.g", c06g)
     ctx.run_clause("C06.f", c06f)
     ctx.run_clause("C06.d", c06d)
